@@ -62,8 +62,7 @@ class World:
             # pool.py stores time.time in _idle_clock at construction: substitute the virtual clock first
             import pymemcache.pool as poolmod
 
-            class _PT:
-                time = staticmethod(self.clock.time)
+            _PT = self.clock.module_shim()
             self._saved_pool_time = (poolmod, poolmod.time)
             poolmod.time = _PT
         first = servers[0] if isinstance(servers[0], str) else (servers[0][0], servers[0][1])
@@ -84,8 +83,7 @@ class World:
 
     # virtual time for hash.py (module global looked up at call time)
     def patch_time(self, hashmod):
-        class _T:
-            time = staticmethod(self.clock.time)
+        _T = self.clock.module_shim()
         self._saved_time = (hashmod, hashmod.time)
         hashmod.time = _T
 
